@@ -9,10 +9,18 @@ Level `other`: a proved kernel + correspondence + differential exploration.
   on declaration-list mutants and on seeded injective renamings; the real OrderedHashMap/Set and
   UnorderedHashMap on seeded operation sequences; compared with the models inside Coq.  Impl-level
   oracle: canon(rename s p) == canon(p) byte for byte, canon idempotent, reference vector/BTreeMap.
-* Differential exploration on the whole compiler (harness/h12c, label *explored*): projects compiled
-  under rayon pools of 1/2/4/16 threads, with and without parallel warm-up, after seeded random
-  prefixes of unrelated queries; Sierra (debug names and canonical ids), CASM and diagnostics must be
-  byte-identical.  Thread interleavings are sampled, not enumerated, and are not modelled in Coq."""
+* Differential exploration on the whole compiler (harness/h12c, label *explored*): projects (with several
+  executables / tests / contracts / impls / generic instantiations and call cycles of every shape) compiled in
+  fresh databases under rayon pools of 1/2/4/16 threads, either entry point first (with / without warm-up),
+  after seeded random histories of other queries - per-function queries (Sierra, lowered body, feedback set)
+  and per-module diagnostics, mostly on the SAME project - and after another project was compiled first.
+  Everything the entry points return must be byte-identical (interned ids canonicalised): diagnostics, Sierra,
+  CASM, statement annotations, function debug info, type names, the ProgramArtifact JSON with `executables`,
+  every executable's compiled output, the TestCompilation metadata, ABI / entry points / contract class /
+  CASM class with hints.  A difference that is exactly the known finding `scc-representative-intern-id`
+  (only members of call cycles differ, only in where the cycle's gas withdrawal sits) goes through the
+  known-findings gate; any other difference is a violation.  Thread interleavings are sampled, not
+  enumerated, and are not modelled in Coq."""
 import json
 import os
 import re
@@ -189,7 +197,9 @@ def run(ctx):
                 "distinct = distinct canonical results returned by the implementation (counted by the harness on the "
                 "printed structure). maps: seeded operation sequences over small key spaces (3..200 keys, so overwrites "
                 "and removals hit), distinct = distinct (ops, answers) cases. compiler matrix: one compilation per "
-                "(project, configuration); distinct = distinct configurations (threads x warm-up x query prefix).",
+                "(project, configuration); distinct = distinct configurations (threads x first entry point x history: "
+                "none / sequential or parallel prefix of per-function and per-module queries, 2 of 3 on the project itself / "
+                "another project compiled first).",
         "input_distribution": summary,
         "compiler_matrix": {k: v for k, v in msum.items() if k != "samples"},
         "matrix_differences": len(mdiffs),
@@ -212,8 +222,10 @@ def run(ctx):
         "commutative reduce, *_sorted_by_key only for injective keys - both shown necessary). TIED: models vs the real "
         "CanonicalReplacer/apply, OrderedHashMap/Set, UnorderedHashMap on every run, plus impl-level oracles. "
         "EXPLORED, not proved: the end-to-end sentence (Sierra with debug names and with canonical ids, CASM, "
-        "diagnostics byte-identical across rayon pools of 1/2/4/16 threads, with/without warm-up, after random "
-        "prefixes of unrelated queries). Thread interleavings cannot be exhibited by a Gallina model; they are sampled.",
+        "diagnostics, debug info, executables, test metadata, contract classes byte-identical across rayon pools of "
+        "1/2/4/16 threads, with/without warm-up, after random histories of other queries on the same database). "
+        "On the unchanged tree this exploration exhibits one history/thread dependent output (KNOWN-FINDING "
+        "scc-representative-intern-id). Thread interleavings cannot be exhibited by a Gallina model; they are sampled.",
         TRUSTED,
         "make -C coq/C12 && coqc Props/C12.v (Print Assumptions); harness/h12 -> coqc out/C12/cases/*.v; "
         "harness/h12c out/C12/matrix <tier>",
